@@ -447,6 +447,6 @@ func TestC18(t *testing.T) {
 		kit.DoReplay(s, t, rf, run)
 		return
 	}
-	s.SetRule("rapid on pairs of real repositories: upstream trees (files under 'metadata', 'pkg', 'meta data' and at the top, odd names from the C10 alphabet) and downstream trees (unrelated files with odd names, names that are prefixes of a downstream path such as foo.x / foobar/y / 'foo ', stale content under a downstream path, optionally a plain file where the downstream path is), 1-3 directives per upstream (with or without upstream path, downstream path with or without trailing slash), and 3-7 steps of {propagate, upstream update, revoke the latest upstream entry}, always ending with two propagations. Oracle: tree algebra on path->blob maps read with ls-tree -z: downstream tree = previous tree with each downstream path replaced by exactly the latest unskipped upstream subtree, everything else byte-identical; exactly one commit and one propagation entry (naming the upstream location and entry) per directive whose path did not already hold that content, none otherwise. Non-trivial: a directive with an upstream path, an odd name outside the downstream paths, or a repetition")
+	s.SetRule("rapid on pairs of real repositories: upstream trees (files under 'metadata', 'pkg', 'meta data' and at the top, odd names from the C10 alphabet, names that look like relative-path or option syntax such as '..x', '...', '-n') and downstream trees (unrelated files with odd names, names that are prefixes of a downstream path such as foo.x / foobar/y / 'foo ', stale content under a downstream path, optionally a plain file where the downstream path is), 1-3 directives per upstream (with or without upstream path, downstream path with or without trailing slash), and 3-7 steps of {propagate, upstream update, revoke the latest upstream entry}, always ending with two propagations. Oracle: tree algebra on path->blob maps read with ls-tree -z: downstream tree = previous tree with each downstream path replaced by exactly the latest unskipped upstream subtree, everything else byte-identical; exactly one commit and one propagation entry (naming the upstream location and entry) per directive whose path did not already hold that content, none otherwise. Non-trivial: a directive with an upstream path, an odd name outside the downstream paths, or a repetition")
 	kit.Campaign(s, t, "propagation", "propagation", s.Budget(96, 6_000), genC18, run)
 }
